@@ -78,9 +78,18 @@ def main():
                     res["verdict"] = "infrastructure-error"
                 else:
                     res["verdict"] = "ALARM"
-            results = json.load(open(rp)) if os.path.exists(rp) else {}
-            results[hid] = res
-            json.dump(results, open(rp, "w"), indent=1, sort_keys=True)
+            import fcntl
+
+            with open(rp + ".lock", "w") as lkf:
+                fcntl.flock(lkf, fcntl.LOCK_EX)
+                results = json.load(open(rp)) if os.path.exists(rp) else {}
+                prev = results.get(hid, {})
+                if "suite_ok_with_patch" in prev and "suite_ok_with_patch" not in res:
+                    res["suite_ok_with_patch"] = prev["suite_ok_with_patch"]
+                results[hid] = res
+                tmp = rp + f".tmp{os.getpid()}"
+                json.dump(results, open(tmp, "w"), indent=1, sort_keys=True)
+                os.replace(tmp, rp)
             print(hid, prop, res.get("verdict"), {k: v["exit"] for k, v in res.get("runs", {}).items()}, res.get("suite_ok_with_patch"))
         finally:
             sh(f"git -C /repo worktree remove --force {wt}")
